@@ -109,6 +109,8 @@ def judge (line : String) : String :=
     match nodes? g, field "valid" o, field "parse" o, field "hpof" o with
     | some (self :: anc), some v, some p, some hp =>
       if v != "1" then "ok" else
+      -- the all-empty NoSender sentinel is "no actor": outside the property (Props.C26_sentinel_corner)
+      if self.name.isEmpty && self.system.isEmpty && self.host.isEmpty && self.port == 0 then "ok" else
       let pn : Str := match anc with
         | [] => []
         | q :: _ => if q.name.isEmpty && q.system.isEmpty && q.host.isEmpty && q.port == 0 then [] else q.name
